@@ -58,6 +58,10 @@ pub enum Spec {
     /// bundled tz database): the static and the heap representation of one
     /// zone meet.
     TzifBundled(u8),
+    /// A zone obtained from a `TimeZoneDatabase` over a small zoneinfo
+    /// directory (never created by `New`, only by `DbGet`): the database
+    /// keeps its own handle in its cache.
+    Db(u8),
 }
 
 impl Spec {
@@ -76,6 +80,7 @@ impl Spec {
                 | Spec::TzifSynth { .. }
                 | Spec::TzifNamed { .. }
                 | Spec::TzifBundled(_)
+                | Spec::Db(_)
         )
     }
     /// 0: inline kinds (UTC, unknown, fixed), 1: POSIX, 2: TZif, 3: static.
@@ -86,7 +91,8 @@ impl Spec {
             Spec::TzifReal(_)
             | Spec::TzifSynth { .. }
             | Spec::TzifNamed { .. }
-            | Spec::TzifBundled(_) => 2,
+            | Spec::TzifBundled(_)
+            | Spec::Db(_) => 2,
             Spec::Static(_) => 3,
         }
     }
@@ -100,6 +106,7 @@ impl Spec {
             Spec::TzifSynth { .. } => "tzif_synth",
             Spec::TzifNamed { .. } => "tzif_named",
             Spec::TzifBundled(_) => "tzif_bundled",
+            Spec::Db(_) => "from_database",
             Spec::Static(_) => "static",
         }
     }
@@ -153,6 +160,15 @@ pub enum Op {
     TzMake { src: u8, dst: u8, which: u8, t: u8 },
     /// One of `N_AMB_OPS` consuming APIs of `AmbiguousZoned`.
     AmbOp { src: u8, dst: u8, which: u8 },
+    /// `database.get(name)` (in one of four ASCII-case spellings): the
+    /// database hands out a clone of the handle in its cache.
+    DbGet { dst: u8, name: u8, case: u8 },
+    /// `database.reset()`: the cache drops its handles.
+    DbReset,
+    /// Advances the simulated clock the database's TTLs run on.
+    DbAdvance { step: u8 },
+    /// New mtime on a zone file: after the TTL the cache entry is replaced.
+    DbTouch { name: u8 },
     Send { slot: u8, to: u8 },
     Recv { dst: u8 },
     SwapShared { slot: u8 },
@@ -183,6 +199,10 @@ impl Op {
             Op::ZonedSpanRel { .. } => "zoned_span_rel",
             Op::TzMake { .. } => "tz_make",
             Op::AmbOp { .. } => "amb_op",
+            Op::DbGet { .. } => "db_get",
+            Op::DbReset => "db_reset",
+            Op::DbAdvance { .. } => "db_advance",
+            Op::DbTouch { .. } => "db_touch",
             Op::Send { .. } => "send",
             Op::Recv { .. } => "recv",
             Op::SwapShared { .. } => "swap_shared",
@@ -205,6 +225,7 @@ pub const N_TZ_MAKE: u8 = 10;
 pub const N_AMB_OPS: u8 = 6;
 pub const N_ZONED_PAIR: u8 = 16;
 pub const N_SPAN_REL: u8 = 8;
+pub const DB_NAMES: [&str; 3] = ["Db/A", "Db/b_", "db/C"];
 
 fn spec(rng: &mut Rng, pool: &[Spec]) -> Spec {
     if !pool.is_empty() && rng.chance(3, 5) {
@@ -246,6 +267,7 @@ pub fn generate(rng: &mut Rng, thorough: bool) -> Case {
     let w_shared = if nthreads > 1 && rng.chance(1, 2) { 6 } else { 0 };
     let w_zoned = if rng.chance(3, 4) { 10 } else { 0 };
     let w_crash = if rng.chance(1, 3) { 2 } else { 0 };
+    let w_db = if rng.chance(1, 3) { 10 } else { 0 };
     let mut threads = vec![];
     for _ in 0..nthreads {
         let len = 1 + rng.usize_below(max_ops);
@@ -269,7 +291,7 @@ pub fn generate(rng: &mut Rng, thorough: bool) -> Case {
                 w_new, 16, 12, 6, 8, 14, w_zoned, w_zoned / 2, w_zoned / 2, w_zoned / 2,
                 w_zoned / 2, w_zoned / 2, w_send, w_send, w_shared, w_crash,
                 w_zoned, w_zoned, w_zoned / 3, w_zoned / 2, w_zoned / 2, w_zoned, w_zoned / 3,
-                w_zoned / 2,
+                w_zoned / 2, w_db, w_db / 5, w_db / 2, w_db / 5,
             ]) {
                 0 => {
                     let dst = slot(rng);
@@ -384,11 +406,23 @@ pub fn generate(rng: &mut Rng, thorough: bool) -> Case {
                     which: rng.below(N_ZONED_PAIR as u64) as u8,
                 },
                 22 => Op::ZonedSweep { a: full(rng, &occ) },
-                _ => Op::ZonedSpanRel {
+                23 => Op::ZonedSpanRel {
                     a: full(rng, &occ),
                     which: rng.below(N_SPAN_REL as u64) as u8,
                     arg: rng.range(-400, 400) as i16,
                 },
+                24 => {
+                    let dst = slot(rng);
+                    occ[dst as usize] = true;
+                    Op::DbGet {
+                        dst,
+                        name: rng.below(DB_NAMES.len() as u64) as u8,
+                        case: rng.below(4) as u8,
+                    }
+                }
+                25 => Op::DbReset,
+                26 => Op::DbAdvance { step: rng.below(4) as u8 },
+                _ => Op::DbTouch { name: rng.below(DB_NAMES.len() as u64) as u8 },
             };
             let crash = op == Op::Crash;
             ops.push(op);
@@ -426,6 +460,10 @@ pub fn generate_small(rng: &mut Rng) -> Case {
                 // 180 `until`/`since` calls per operation are too slow when
                 // interpreted.
                 Op::ZonedSweep { a } => *op = Op::ZonedPair { a: *a, b: *a, which: 3 },
+                // No file system under Miri's isolation.
+                Op::DbGet { .. } | Op::DbReset | Op::DbAdvance { .. } | Op::DbTouch { .. } => {
+                    *op = Op::Eq { a: 0, b: 1 }
+                }
                 _ => {}
             }
         }
